@@ -340,19 +340,33 @@ class Aggregate(list):
         """
         cls = self.__class__
         root = ET.Element(cls.__name__)
-        do_list = True  # HACK
+        # List members are written where their list attribute occurs in the
+        # class definition.  List attributes that are adjacent to each other
+        # (disregarding Unsupported) form a run; members belonging to a run are
+        # written together, in sequence order, where the run begins.
+        is_list = {
+            attr: isinstance(type_, (Types.ListAggregate, Types.ListElement))
+            for attr, type_ in self.spec.items()
+            if not isinstance(type_, Types.Unsupported)
+        }
+        attrs = list(is_list)
 
-        for attr, type_ in self.spec.items():
-            if isinstance(type_, (Types.ListAggregate, Types.ListElement)):
-                # HACK - the assumption here is that all list members
-                # occur immediately adjacent to each other in the class
-                # definition.  So when you encounter the first one, process
-                # all Aggregate contained sequence items, then don't do them
-                # again for subsequent list members.
-                if do_list:
-                    for member in self:
+        for index, attr in enumerate(attrs):
+            if is_list[attr]:
+                if index > 0 and is_list[attrs[index - 1]]:
+                    # Already written along with the beginning of the run
+                    continue
+                run = set()
+                for attr_ in attrs[index:]:
+                    if not is_list[attr_]:
+                        break
+                    run.add(attr_)
+                for member in self:
+                    if (
+                        not isinstance(member, Aggregate)
+                        or type(member).__name__.lower() in run
+                    ):
                         self._listAppend(root, member)
-                    do_list = False
             else:
                 value = getattr(self, attr)
                 if value is None:
